@@ -241,8 +241,17 @@ Apply(S, op, a) ==
          IF a[3] THEN IF Dom_Complete(a[1]) THEN Res(S, "ok", TranslateComplete(a[1], a[2]))
                       ELSE Fail(S, "Rejected")
          ELSE Res(S, "ok", OrfsDecl(a[1], a[2], a[4], a[5]))
-    [] op = "table" ->                                   \* a = <<table, starts>>: what a CodonTable reports
-         Res(S, "ok", [aa |-> a[1], starts |-> a[2]])
+    [] op = "table" ->                                   \* a = <<table, starts>>: what a CodonTable reports,
+         \* what a table derived from it (with_codon_mappings: codon AAA -> another amino acid;
+         \* with_start_codons: {AAA}) reports, and what the original reports afterwards (unchanged)
+         Res(S, "ok", [aa |-> a[1], starts |-> a[2],
+                       derived |-> [a[1] EXCEPT ![1] = (a[1][1] + 1) % 23],
+                       derivedStarts |-> {0},
+                       aaAfter |-> a[1], startsAfter |-> a[2]])
+    [] op = "big_seq" ->       \* a = <<n, syms>>: a sequence over the alphabet 0..n-1 (symbol = code)
+         IF \A i \in DOMAIN a[2] : a[2][i] \in 0..(a[1] - 1)
+           THEN Res(S, "ok", [codes |-> a[2], symbols |-> a[2]])
+           ELSE Fail(S, "AlphabetError")
     [] op = "fuse"    -> LET r == Fuse(a[1], a[2], a[3]) IN Res(S, r.oc, r.out)      \* <<b, k, kmer codes>>
     [] op = "split"   -> LET r == Split(a[1], a[2], a[3]) IN Res(S, r.oc, r.out)     \* <<b, k, code>>
     [] op = "kencode" -> LET r == KEncode(a[1], a[2], a[3]) IN Res(S, r.oc, r.out)   \* <<base alphabet, k, symbols>>
